@@ -12,7 +12,8 @@ RULE = ('70% E1 histories (pure scheduler API) and 30% E2 histories (Master + Zk
         'some group had more members than identities and an unplaced member '
         'at the end of a cycle. distinct = canonical JSON.'
         ' Since rounds 5-7: an instance that lost its server outside a cycle is blacklisted / unscheduled / has its group shrunk before the next cycle; group resized while no master looks, then restart.'
-        ' Since round 10: allocations with utilisation caps, capclone / capsqueeze (a placed group member is outranked inside its capped allocation while the cell is full).')
+        ' Since round 10: allocations with utilisation caps, capclone / capsqueeze (a placed group member is outranked inside its capped allocation while the cell is full).'
+        ' Since round 11: lease renewals (renew, renewold, clock advances).')
 ASSUMPTIONS = [
     'virtual clock replaces treadmill.scheduler.time',
     'group count changes reach the cell through configure_identity_group / '
